@@ -353,17 +353,18 @@ ParaLists == {FlatSeq(f) : f \in RandomSubset(NRand, [1..NFree -> ParaUnits])}
 Lists == IF Mode = "exh" THEN Free ELSE IF Mode = "rand" THEN RandomSubset(NRand, Free)
          ELSE IF Mode = "para" THEN ParaLists ELSE {}
 
-\* "corpus": stored scenarios (items with their tail, width), one JSON record per line of kp_corpus.ndjson
+\* "corpus": stored scenarios (items with their tail, width), one JSON record per line of kp_corpus.ndjson; those with
+\* at most 9 optional breakpoints get the complete verdict (all breakings, relaxation clause), the others the path verdict
 Corpus == ndJsonDeserialize("kp_corpus.ndjson")
 Init == /\ IF Mode = "corpus" THEN \E i \in 1..Len(Corpus) : items = Corpus[i].items /\ width = Corpus[i].width
            ELSE /\ items \in {f \o TailItems : f \in {g \in Lists : Structural(g)}}
                 /\ width \in MinW..MaxW
         /\ ph = 0 /\ lt = <<>>
-Build == ph = 0 /\ ph' = 1 /\ lt' = (IF Mode \in {"para", "corpus"} THEN <<>> ELSE LineTable(items, width)) /\ UNCHANGED <<items, width>>
+Build == ph = 0 /\ ph' = 1 /\ lt' = (IF Mode = "para" \/ (Mode = "corpus" /\ ~SmallEnough(items)) THEN <<>> ELSE LineTable(items, width)) /\ UNCHANGED <<items, width>>
 Next == Build
 Spec == Init /\ [][Next]_vars
 
-EmitInv == ph = 1 => PrintT("@@" \o ToJson(IF Mode \in {"para", "corpus"} THEN VerdictP(items, width) ELSE Verdict(items, width, lt)))
+EmitInv == ph = 1 => PrintT("@@" \o ToJson(IF Mode = "para" \/ (Mode = "corpus" /\ ~SmallEnough(items)) THEN VerdictP(items, width) ELSE Verdict(items, width, lt)))
 
 \* ---- model-level sanity of the specification itself (MC) ------------------------------------------------
 J0 == AllJudged(items, lt)
